@@ -49,6 +49,6 @@ def run(tier, seed):
                         "number formats of the target: %s" % ", ".join(D.NUMBER_FORMATS if tier == "thorough" else ("%f", "%.3m")),
                         "driver-author precondition: element keys do not shadow vector attribute names (e.g. 'new_message_class')"]
     chk.min_obligations = 120
-    chk.standin_on_out_of_reach("native fault catalogue", "driver.hostile_all", {},
-                                bound_text="fault catalogue (unknown / duplicate / wrong-kind elements, unparsable values, wrong BLOB sizes, no children) x message kind x target property kind on a real driver behind a real router")
+    chk.standin_on_out_of_reach("native fault catalogue", "driver.hostile_all", {}, always=True,
+                                bound_text="fault catalogue (unknown / duplicate / wrong-kind elements, unparsable values, wrong BLOB sizes, no children) x message kind x target property kind on a real driver behind a real router; includes number texts beyond the float range, which the deductive model (floats as reals) cannot see")
     return chk.finish()
